@@ -117,3 +117,31 @@ def _cleanup():
         except OSError:
             pass
         shutil.rmtree(sc, ignore_errors=True)
+
+
+_clearers = []
+
+
+def reset_caches():
+    """Clears every cache of the code under test (spil's own cache decorators and resolva's lru_caches), so
+    that each generated case starts from the post-import state and failures reproduce from the saved case."""
+    if not _clearers:
+        seen = set()
+        for name, mod in list(sys.modules.items()):
+            if not (name == "spil" or name.startswith("spil.") or name.startswith("resolva")):
+                continue
+            for attr, obj in list(vars(mod).items()):
+                targets = [obj]
+                if isinstance(obj, type):
+                    targets += [v for v in vars(obj).values()]
+                for o in targets:
+                    cc = getattr(o, "cache_clear", None)
+                    if callable(cc) and id(o) not in seen:
+                        seen.add(id(o))
+                        _clearers.append(cc)
+        _clearers.append(lambda: None)
+    for cc in _clearers:
+        try:
+            cc()
+        except Exception:
+            pass
